@@ -1,6 +1,7 @@
 package checks
 
 import (
+	"errors"
 	"fmt"
 	"net"
 	"net/netip"
@@ -59,6 +60,12 @@ func runC06(c *core.Ctx) {
 			return
 		}
 	}
+	if c.T.Bias(1, 4, "mapped-v4-sources") {
+		// the sockets report IPv4 sources in IPv4-in-IPv6 form: a peer-reflexive candidate learned that way is
+		// still the same transport address as the signalled a.b.c.d:port
+		d.HA.MappedV4Sources, d.HB.MappedV4Sources = true, true
+		c.Fault("ipv4-mapped-sources")
+	}
 	o := &c06Oracle{c: c, d: d, idKey: map[string]map[uint64]string{"A": {}, "B": {}}}
 	if c.T.Bias(1, 4, "restart-before-start") {
 		// candidates gathered and trickled before Dial/Accept, then Restart while the state is still New:
@@ -92,6 +99,25 @@ func runC06(c *core.Ctx) {
 			}
 		}
 	}
+	// socket fault for the teardowns below: closing a candidate's socket reports an error (the socket is
+	// closed anyway) - the rest of the generation must still be torn down
+	armCloseErr := func() {
+		if !c.T.Bias(1, 3, "socket-close-error") {
+			return
+		}
+		var socks []*simnet.Sock
+		for _, so := range d.W.Sockets() {
+			if (so.Host() == d.HA || so.Host() == d.HB) && so.Tag != "service" && !so.Closed() {
+				socks = append(socks, so)
+			}
+		}
+		d.W.Lock()
+		for _, so := range socks {
+			so.CloseErr = errors.New("simulated close error")
+		}
+		d.W.Unlock()
+		c.Fault("socket-close-error")
+	}
 	d.AroundSignal = o.aroundSignal
 	sess := &c01Session{c: c, d: d, k: k, noOracles: true}
 	sess.hook = func(string) {
@@ -123,6 +149,7 @@ func runC06(c *core.Ctx) {
 		// Failed: the Failed state must leave nothing behind (invariants: pairs, candidates, selection,
 		// transactions)
 		c.Fault("total-silence")
+		armCloseErr()
 		total := k.disc + k.failed + 2*k.checkInterval + 2*k.keepalive + time.Second
 		for el := time.Duration(0); el < total && !c.Failed(); el += k.checkInterval {
 			for _, dg := range d.W.InFlight() {
@@ -165,6 +192,7 @@ func runC06(c *core.Ctx) {
 	}
 	if k.restart {
 		// Restart must leave no residue: checked right after each Restart call
+		armCloseErr()
 		for _, ag := range []*rig.AgentH{d.A, d.B} {
 			uf, pw := rig.Creds(ag.Name, 1)
 			if err := ag.A.Restart(uf, pw); err != nil {
